@@ -898,3 +898,111 @@ func RunCMTrace(p *CMProg, rep Reporter) {
 		}
 	}
 }
+
+// RunCBulk: wrappers that hold MANY unflushed entries (sizes around powers of two and the thresholds at which
+// implementations switch strategy): sets and deletes in PRNG order over a parent that already holds part of the keys,
+// then iterations over whole and partial domains in both directions, before and after the flush, against the sorted-map
+// model. Returns the number of iterations compared.
+func RunCBulk(r *sim.Rand, n int, rep Reporter) int {
+	kinds := []string{"mem", "iavl", "prefix", "cache"}
+	parent, dump := newBase(kinds[r.Intn(len(kinds))], nil)
+	model := smap{}
+	key := func(i int) string { return fmt.Sprintf("k%06d", i) }
+	for i := 0; i < n; i += 1 + r.Intn(4) {
+		parent.Set([]byte(key(i)), []byte("p"))
+		model[key(i)] = "p"
+	}
+	w := cachekv.NewStore(parent)
+	order := make([]int, n)
+	for i := range order {
+		order[i] = i
+	}
+	for i := n - 1; i > 0; i-- {
+		j := r.Intn(i + 1)
+		order[i], order[j] = order[j], order[i]
+	}
+	compared := 0
+	check := func(st stypes.KVStore, when string) {
+		for q := 0; q < 6; q++ {
+			var s, e *B
+			switch q {
+			case 1:
+				e = strp(key(n)) // everything below a bound above all keys
+			case 2:
+				s = strp(key(r.Intn(n)))
+			case 3:
+				e = strp(key(r.Intn(n)))
+			case 4, 5:
+				a, b := r.Intn(n), r.Intn(n)
+				if a > b {
+					a, b = b, a
+				}
+				s, e = strp(key(a)), strp(key(b))
+			}
+			for _, asc := range []bool{true, false} {
+				var got [][2]string
+				perr := safely(func() {
+					if asc {
+						got = drain(st.Iterator(bnd(s), bnd(e)))
+					} else {
+						got = drain(st.ReverseIterator(bnd(s), bnd(e)))
+					}
+				})
+				want := model.rng(s, e, asc)
+				compared++
+				if perr != nil {
+					rep.Violate("C15", "bulk-iterator-panic", fmt.Sprintf("%d entries, %s, domain [%s,%s) asc=%v: %v", n, when, fmtB(s), fmtB(e), asc, perr))
+					return
+				}
+				if !eqPairs(got, want) {
+					first := ""
+					for i := 0; i < len(got) || i < len(want); i++ {
+						if i >= len(got) || i >= len(want) || got[i] != want[i] {
+							first = fmt.Sprintf("position %d", i)
+							if i < len(want) {
+								first += " expected " + want[i][0]
+							}
+							if i < len(got) {
+								first += " got " + got[i][0]
+							}
+							break
+						}
+					}
+					rep.Violate("C15", "bulk-iterator-mismatch", fmt.Sprintf("wrapper with %d unflushed entries, %s, domain [%s,%s) asc=%v: %d pairs, model %d; %s", n, when, fmtB(s), fmtB(e), asc, len(got), len(want), first))
+					return
+				}
+			}
+		}
+	}
+	for c, i := range order {
+		if r.Chance(20) {
+			w.Delete([]byte(key(i)))
+			delete(model, key(i))
+		} else {
+			v := fmt.Sprintf("v%d", c)
+			w.Set([]byte(key(i)), []byte(v))
+			model[key(i)] = v
+		}
+	}
+	check(w, "all entries unflushed, first iteration")
+	// a second batch on top of entries that an iteration has already seen
+	for c := 0; c < n/3; c++ {
+		i := r.Intn(n)
+		if r.Chance(30) {
+			w.Delete([]byte(key(i)))
+			delete(model, key(i))
+		} else {
+			w.Set([]byte(key(i)), []byte("w"))
+			model[key(i)] = "w"
+		}
+	}
+	check(w, "second batch on top of iterated entries")
+	w.Write()
+	check(w, "after Write")
+	if d := dump(); len(d) != len(model) {
+		rep.Violate("C15", "bulk-final-content", fmt.Sprintf("%d entries flushed: parent holds %d keys, model %d", n, len(d), len(model)))
+	}
+	rep.Count("c15.bulk.programs", 1)
+	rep.Count("c15.bulk.iterations_compared", int64(compared))
+	return compared
+}
